@@ -648,4 +648,5 @@ func TestVerif_C20(t *testing.T) {
 		}
 	}
 	kit.Run(s, "assignment_vs_reference", kit.N{Quick: 6000, Thorough: 80000}, c20GenAssign, c20CheckAssign)
+	c20RunGStar(s)
 }
